@@ -1,3 +1,4 @@
+import RlboxModel.Props.C03
 import RlboxModel.Range
 import RlboxModel.Lemmas.Arith
 /-!
@@ -162,6 +163,26 @@ theorem C10_counted_null_zero (k p elSize : Nat) :
     simp [verifyRangeHelper, this]
   · have : c ≠ 0 := by omega
     simp [denyAccessCopy, verifyRangeHelper, this]
+
+/-- `copy_memory_or_grant_access` with an untrusted allocator behind a backend that does not clamp:
+whatever representation `v` the allocator inside the sandbox returns, the copy proceeds only into a
+destination range that lies wholly inside the sandbox's region (`mallocIn` admits the start,
+`memcpyOp` range-checks the `n` bytes from it). -/
+theorem C10_grant_untrusted_allocator (s : Sbx) (hs : C04.Sbx.wf s) (v count size d src n : Nat) (rs : List (Nat × Nat))
+    (hd0 : d ≠ 0) (hn : 0 < n) (hn2 : n < W64)
+    (hm : mallocIn s v count size = some d) (hc : memcpyOp s.region.k (2 ^ s.region.k) d src n = some rs) :
+    ∀ a, d ≤ a → a < d + n → s.region.contains a := by
+  have hin : s.region.contains d := by
+    rcases C03.C03_malloc s hs v count size d hm with h | h
+    · exact absurd h hd0
+    · exact h.1
+  unfold memcpyOp at hc
+  split at hc
+  · rename_i h
+    exact C10_sound_region s.region hs.1 d n hin hn hn2 (by simpa using h.2.1)
+  · cases hc
+
+example : mallocIn ⟨⟨16, 0x6a0000000000⟩, 4⟩ 0x10040 32 1 = none := by decide
 
 /-- regression witnesses of the repaired defects: the wrapping product and the wrapping range end
 are now rejected -/
